@@ -156,7 +156,7 @@ def go_build(ctx, pkg, race=False, tags="verif"):
 
 
 # ---------------------------------------------------------------- cases evaluation
-_M_ITEM = re.compile(r"\((\d+)%N,\((\d+)%N,(\d+)%N,(\w+)\)\)")
+_M_ITEM = re.compile(r"\((\d+)(?:%N)?,\((\d+)(?:%N)?,(\d+)(?:%N)?,(\w+)\)\)")
 
 
 def eval_shards(ctx, files, parse=None):
